@@ -50,7 +50,7 @@ def run_spec(ctx, tier, maxn, laws=True, name='orthopoly'):
     cs = cases(tier)
     if laws:
         c, d = cfg(cs, maxn, False)
-        ctx.tlc('OrthoPoly', c, defs=d, name=name + '-laws', emit=False, require_actions=('Compute',), timeout=3000)
+        ctx.tlc('OrthoPoly', c, defs=d, name=name + '-laws', emit=False, coverage=False, timeout=3000)   # no coverage statistics: they triple the cost of ModQ arithmetic
     parts = [cs[i::8] for i in range(8)]
     thunks = [(lambda p=p, i=i: ctx.tlc("OrthoPoly", cfg(p, maxn, True)[0], defs=cfg(p, maxn, True)[1], name='%s:emit%d' % (name, i), coverage=False, count=not laws, timeout=3000)) for i, p in enumerate(parts) if p]
     recs = []
